@@ -15,7 +15,10 @@ use crate::{
     PublishData, SubscriptionOpts,
 };
 use bytes::BytesMut;
+#[cfg(not(poster_verif_loom))]
 use core::sync::atomic::{AtomicU16, AtomicU32, Ordering};
+#[cfg(poster_verif_loom)]
+use loom::sync::atomic::{AtomicU16, AtomicU32, Ordering};
 use futures::{
     channel::{mpsc, oneshot},
     future, StreamExt,
